@@ -17,6 +17,7 @@ type faultSpec struct {
 	K       int    // index of the WriteFile call (0-based) within the faulted run
 	Outcome string // "error" (nothing written, error returned) | "torn" (prefix written, process dies) | "torn-error" (prefix written, error returned) | "death-after" (write completes, process dies)
 	Cut     int    // bytes that reach the file for torn outcomes
+	Errno   string `json:",omitempty"` // error outcomes: "" opaque error, else the errno of an *fs.PathError (EACCES, EPERM, EROFS, ENOSPC, EIO)
 }
 
 type c15Case struct {
@@ -34,11 +35,11 @@ func (f faultSpec) fn() core.Fault {
 		}
 		switch f.Outcome {
 		case "error":
-			return core.FaultAction{Write: -2, Fail: true}
+			return core.FaultAction{Write: -2, Fail: true, Errno: f.Errno}
 		case "torn":
 			return core.FaultAction{Write: f.Cut, Die: true}
 		case "torn-error":
-			return core.FaultAction{Write: f.Cut, Fail: true}
+			return core.FaultAction{Write: f.Cut, Fail: true, Errno: f.Errno}
 		case "death-after":
 			return core.FaultAction{Write: -1, Die: true}
 		}
@@ -229,10 +230,14 @@ func TestC15(t *testing.T) {
 		for k, wr := range m.Writes {
 			var faults []faultSpec
 			faults = append(faults, faultSpec{K: k, Outcome: "error"}, faultSpec{K: k, Outcome: "death-after"})
+			// the same refusal as the operating system words it: permission, read-only file system, disk full, I/O error
+			for _, no := range []string{"EACCES", "EPERM", "EROFS", "ENOSPC", "EIO"} {
+				faults = append(faults, faultSpec{K: k, Outcome: "error", Errno: no})
+			}
 			for _, cut := range cutPoints(wr.Data, p.Fractions) {
 				faults = append(faults, faultSpec{K: k, Outcome: "torn", Cut: cut})
 				if cut%3 == 0 {
-					faults = append(faults, faultSpec{K: k, Outcome: "torn-error", Cut: cut})
+					faults = append(faults, faultSpec{K: k, Outcome: "torn-error", Cut: cut, Errno: []string{"", "ENOSPC", "EIO", "EACCES"}[cut/3%4]})
 				}
 			}
 			for _, f := range faults {
